@@ -30,6 +30,7 @@ type item struct {
 	ID   string   `json:"id"`
 	Src  string   `json:"src"`
 	Libs []string `json:"libs,omitempty"` // library files (namespaced classes), registered before the entry runs
+	Hist *hist    `json:"hist,omitempty"` // history layer (history.go): a sequence of compiles into one output directory
 }
 
 var fixtures = []item{
@@ -500,15 +501,33 @@ func main() {
 		c.Finish(1, 1, 0, "setup failed")
 	}
 	var items []item
+	hb := hbound{depth: 2, legacyDepth: 1}
+	if !c.Quick() {
+		hb = hbound{depth: 3, legacyDepth: 2, touch: true}
+	}
+	var ho histOut
+	var hwg sync.WaitGroup
 	if c.Replay != "" {
 		var it item
 		if _, err := ev.LoadReplay(c.Replay, &it); err != nil {
 			fmt.Println("replay:", err)
 			return
 		}
-		items = []item{it}
+		if it.Hist != nil {
+			ho = runHistories([]hist{*it.Hist}, hb, cli, repo, overlay, 1)
+		} else {
+			items = []item{it}
+		}
 	} else {
-		items = programs(c.Quick())
+		if os.Getenv("C16_ONLY") != "hist" { // development aid: C16_ONLY=hist runs the history layer alone
+			items = programs(c.Quick())
+		}
+		// the history layer runs next to the batches (its compiles are cheap, it needs one go build)
+		hwg.Add(1)
+		go func() {
+			defer hwg.Done()
+			ho = runHistories(nil, hb, cli, repo, overlay, 6)
+		}()
 	}
 	per := 64
 	var batches [][]item
@@ -532,6 +551,19 @@ func main() {
 		}(i)
 	}
 	wg.Wait()
+	hwg.Wait()
+	if ho.err != "" {
+		c.HarnessError("history layer: %s", ho.err)
+	}
+	if ho.capped > 0 {
+		c.NotExhaustive(fmt.Sprintf("%d distinct output directories that differ from a fresh compile were not built (cap %d)", ho.capped, maxSuspectClasses))
+	}
+	histories := judgeHistories(c, ho)
+	for i, r := range ho.results {
+		if len(r.H.Ops) == 2 && i%97 == 0 {
+			c.Sample(map[string]any{"history": r.H.String(), "final_sources": r.State, "accepted": r.OkH, "identical_to_fresh_compile": r.Same})
+		}
+	}
 	byID := map[string]item{}
 	for _, it := range items {
 		byID[it.ID] = it
@@ -591,9 +623,24 @@ func main() {
 	c.Set("node_types_in_generated_code", nts)
 	c.Assume("the generated package is built through the same instrumentation overlay as every other check (needed for exit() interception and fuel); the stock Register()/main templates are not executed by the runner, which calls the generated AST constructors directly")
 	c.Assume("programs outside the enumerated families (progen F1-F4 inside the stated bounds, fixtures) are not covered")
-	if compared < 10 && c.Replay == "" {
+	nsame := 0
+	for _, cl := range ho.classes {
+		if cl.same {
+			nsame++
+		}
+	}
+	c.Set("histories", histories)
+	c.Set("history_depth", hb.depth)
+	c.Set("history_compile_invocations", ho.compiles)
+	c.Set("history_distinct_output_dirs_built_and_run", len(ho.beh))
+	c.Set("history_distinct_output_dirs_equal_to_fresh", nsame)
+	c.Assume("history layer: sources are four fixed files with three revisions each; mtimes are set explicitly (older / unchanged / equal to the generated file / one second newer); the generated go.mod is replaced by the harness's module; the scratch root inside EntryPath is relocated when a directory is built")
+	if c.Replay == "" && (histories < 100 || nsame < 10) {
+		c.HarnessError("vacuous: history layer ran %d histories over %d project states", histories, nsame)
+	}
+	if compared < 10 && c.Replay == "" && os.Getenv("C16_ONLY") != "hist" {
 		c.HarnessError("vacuous: only %d programs compared", compared)
 	}
 	_ = time.Now
-	c.Finish(compared, compared*2, compared, "complete progen families F1-F4 inside bounds + class/closure/exception/namespace fixtures, each translated by `origami compile`, built, and run compiled and interpreted on fresh VMs in one binary; states = programs compared")
+	c.Finish(compared+histories, compared*2+ho.compiles, compared+histories, "complete progen families F1-F4 inside bounds + class/closure/exception/namespace fixtures, each translated by `origami compile`, built, and run compiled and interpreted on fresh VMs in one binary; plus every history of compiles into one reused output directory up to the depth bound (edit with four mtime relations / add / delete / recompile / change --pkg / break, legacy directory), compared with a fresh compile of the final sources and built and run per distinct directory; states = programs compared + histories")
 }
